@@ -1,4 +1,8 @@
-use std::{cmp::min, num::NonZeroU64, sync::Arc};
+use std::{
+    cmp::{max, min},
+    num::NonZeroU64,
+    sync::Arc,
+};
 
 use anyhow::Context;
 
@@ -171,7 +175,7 @@ impl<T: Target + 'static> Loop<T> {
                             tracing::error!("updater job failed: {err:#}");
                             interval.reset_after(backoff);
                             tracing::info!("trying in {} seconds", backoff.as_secs());
-                            backoff = min(self.period, backoff * 2);
+                            backoff = min(max(self.period, MIN_BACKOFF), backoff * 2);
                         }
                     }
                 }
